@@ -221,7 +221,9 @@ func (sc *Scheduler) Schedule(ctx context.Context, g *ExecutionGraph, done chan 
 					}
 					if node.data.Step.RepeatPolicy.Repeat {
 						if execErr == nil || node.data.Step.ContinueOn.Failure {
-							if !sc.isCanceled() {
+							// A repeating step is not repeated again once the
+							// run was stopped or its timeout has elapsed.
+							if !sc.isCanceled() && !sc.isTimeout(g.startedAt) {
 								verifhook.Point("dagsched.repeat.wait", node)
 								time.Sleep(node.data.Step.RepeatPolicy.Interval)
 								continue ExecRepeat
